@@ -31,6 +31,7 @@ import (
 type FSMOpts struct {
 	Config                config.Config
 	GetState              func() map[int]map[string]internal.KeyData
+	Flush                 func(database int)
 	GetCommand            func(command string) (internal.Command, error)
 	SetValues             func(ctx context.Context, entries map[string]interface{}) error
 	SetExpiry             func(ctx context.Context, key string, expire time.Time, touch bool)
@@ -159,6 +160,12 @@ func (fsm *FSM) Restore(snapshot io.ReadCloser) error {
 	if err = json.Unmarshal(b, &data); err != nil {
 		log.Fatal(err)
 		return err
+	}
+
+	// The snapshot replaces the state of this node: whatever it held before (a node that lags behind
+	// may still have keys that were deleted before the snapshot was taken) is dropped first.
+	if fsm.options.Flush != nil {
+		fsm.options.Flush(-1)
 	}
 
 	// Set state
